@@ -57,3 +57,11 @@ func vOneNodeServer(t *testing.T, cfg *Config) *Server {
 	}
 	return srv
 }
+
+// vJoinConfig is the configuration of a further server of the cluster whose first
+// server runs with `first` (it uses the first server's embedded NATS).
+func vJoinConfig(t *testing.T, id string, first *Config) *Config {
+	cfg := getTestConfig(id, false, 0)
+	cfg.NATS.Servers = append([]string{}, first.NATS.Servers...)
+	return cfg
+}
